@@ -318,6 +318,75 @@ def vec_is_empty(i, fr, st, pc, a, t, fn, r):
     return _ret(i, st, pc, wbool(i.slice_len(st, h) == 0))
 
 
+def box_new_uninit(i, fr, st, pc, a, t, fn, r):
+    cell = new_cell()
+    st.mem[cell] = Opaque("uninit", ())
+    return _ret(i, st, pc, Ptr(cell, (), None, "box"))
+
+
+def box_assume_init_into_vec(i, fr, st, pc, a, t, fn, r):
+    b = a[0]
+    arr = i.read_ptr(st, b)
+    if not isinstance(arr, Arr):
+        raise Undecided("vec![..] contents %r" % (arr,))
+    return _ret(i, st, pc, Ptr(b.cell, b.path, (0, len(arr.elems)), "vec"))
+
+
+def vec_insert(i, fr, st, pc, a, t, fn, r):
+    h = i.read_ptr(st, a[0])
+    elems = list(i.slice_elems(st, h))
+    k = a[1]
+    if k.val is None:
+        raise Undecided("symbolic insert position")
+    if k.val > len(elems):
+        return i.panic(st, pc, "insertion index out of bounds", fr, t)
+    elems.insert(k.val, a[2])
+    _vec_set(i, st, a[0], elems)
+    return _ret(i, st, pc, UNIT)
+
+
+def vec_index(i, fr, st, pc, a, t, fn, r):
+    h = i.read_ptr(st, a[0]) if a[0].sl is None else a[0]
+    idx = a[1]
+    if isinstance(idx, Agg):
+        return index_mut_range(i, fr, st, pc, [Ptr(h.cell, h.path, h.sl), idx], t, fn, r)
+    if idx.val is None:
+        raise Undecided("symbolic Vec index")
+    n = i.slice_len(st, h)
+    if idx.val >= n:
+        return i.panic(st, pc, "index out of bounds", fr, t)
+    return _ret(i, st, pc, i.elem_ptr(h, idx.val))
+
+
+def slice_last(i, fr, st, pc, a, t, fn, r):
+    p = a[0]
+    n = i.slice_len(st, p)
+    if n == 0:
+        return _ret(i, st, pc, NONE)
+    return _ret(i, st, pc, some(i.elem_ptr(p, n - 1)))
+
+
+def option_unwrap(i, fr, st, pc, a, t, fn, r):
+    v = a[0]
+    if not isinstance(v, Agg):
+        raise Undecided("unwrap of %r" % (v,))
+    if v.variant == 0:
+        return i.panic(st, pc, "called `Option::unwrap()` on a `None` value", fr, t)
+    return _ret(i, st, pc, v.fields[0])
+
+
+def ref_eq(i, fr, st, pc, a, t, fn, r):
+    x, y = a
+    for _ in range(3):
+        if isinstance(x, Ptr) and x.sl is None:
+            x = i.read_ptr(st, x)
+        if isinstance(y, Ptr) and y.sl is None:
+            y = i.read_ptr(st, y)
+    if isinstance(x, W) and isinstance(y, W):
+        return _ret(i, st, pc, w_eq(x, y))
+    raise Undecided("equality of %r and %r" % (x, y))
+
+
 def vec_into_boxed_slice(i, fr, st, pc, a, t, fn, r):
     v = a[0]
     return _ret(i, st, pc, Ptr(v.cell, v.path, v.sl, "box"))
@@ -710,6 +779,14 @@ TABLE = {
     "core::num::<impl usize>::trailing_zeros": trailing_zeros,
     "std::vec::from_elem": vec_from_elem,
     "std::vec::Vec::<T>::new": vec_new,
+    "std::boxed::Box::<T>::new_uninit": box_new_uninit,
+    "std::boxed::box_assume_init_into_vec_unsafe": box_assume_init_into_vec,
+    "std::vec::Vec::<T, A>::insert": vec_insert,
+    "<std::vec::Vec<T, A> as std::ops::Index<I>>::index": vec_index,
+    "<std::vec::Vec<T, A> as std::ops::IndexMut<I>>::index_mut": vec_index,
+    "core::slice::<impl [T]>::last": slice_last,
+    "std::option::Option::<T>::unwrap": option_unwrap,
+    "std::cmp::impls::<impl std::cmp::PartialEq<&B> for &A>::eq": ref_eq,
     "std::vec::Vec::<T, A>::retain": vec_retain,
     "std::slice::<impl [T]>::sort": seq_event("sort"),
     "std::vec::Vec::<T, A>::dedup": seq_event("dedup"),
